@@ -93,6 +93,7 @@ func (p *storeProp) Gen(r *Rand, tier string, idx int) any {
 	}
 	if sp.Kind == "file" {
 		o.Titles = true
+		o.AliasNames = true
 	}
 	sp.Graph = *GenGraph(r, o)
 	g := sp.Graph.Build()
@@ -168,6 +169,9 @@ func (p *storeProp) Gen(r *Rand, tier string, idx int) any {
 			pushed++
 		} else if r.Chance(0.6) {
 			op = SOp{Op: pick(r, mutators), Node: r.Intn(nn), Ref: randRef()}
+			if op.Op == "tag" && r.Chance(0.3) {
+				op.Var = r.Range(1, 2) // same content, other descriptor annotations
+			}
 		} else {
 			op = SOp{Op: pick(r, readers), Node: r.Intn(nn), Ref: randRef()}
 		}
